@@ -455,3 +455,45 @@ contract(f"{STK}::StackingForecaster.fit", "C09", cases=["m1", "m2", "m3"],
          inputs=lambda B, case: (lambda o: {"self": o[0], "y": sym_series(B), "X": None, "fh": sym_fh(B, "fh", nonempty=True, oos=True)})(mk_stack(B, int(case[1:]))),
          raises=[("ValueError", lambda A: 1 + fh_last(A.fh) > Z(A.y.index.len))],
          ensures=[("meta-regressor-trained-on-held-out-forecasts-of-members-that-did-not-see-them", _stk_fit_post)])
+
+
+def _stk_pred_inputs(B, case):
+    m = int(case[1:])
+    obj, ms, reg = mk_stack(B, m)
+    fitted = [B.abstract(f"fitted_member{t}", isa=("BaseForecaster",)) for t in range(m)]
+    regf = B.abstract("fitted_final_regressor", isa=("RegressorMixin", "BaseEstimator"))
+    fh = sym_fh(B, "fh", nonempty=True, oos=True)
+    cutoff = B.int("cutoff")
+    out = B.arr("meta_prediction", dtype="real", shape=[vals(fh).len])
+    regf.results = {"predict": lambda I2, o, ev: out}
+    obj.attrs.update(forecasters_=SList(fitted, "list"), final_regressor_=regf, _is_fitted=True, _fh=fh, _cutoff=cutoff)
+    obj.ghost = dict(fitted=fitted, regf=regf, out=out)
+    return {"self": obj, "fh": fh, "X": None}
+
+
+def _stk_pred_post(A, r):
+    """every fitted member forecasts the stored horizon once, in member order; the fitted meta-regressor sees their forecasts as
+    columns in that order; its output is returned labelled cutoff + step"""
+    g = A.self.ghost
+    evs = [e for e in trace() if e.obj is not None]
+    mem = evs[:len(g["fitted"])]
+    if len(evs) != len(g["fitted"]) + 1 or not isinstance(r, SSeries):
+        return False
+    for e, f in zip(mem, g["fitted"]):
+        # the members are asked for their STORED horizon (fh=None; exogenous data is not supported by stacking: fit rejects it)
+        if e.obj is not f or e.method != "predict" or not (e.arg(0) is None or e.arg(0) is A.fh):
+            return False
+    last = evs[-1]
+    Xm = last.arg(0)
+    if last.obj is not g["regf"] or last.method != "predict" or not isinstance(Xm, Opaque) or not Xm.prov or Xm.prov[0] != "column_stack":
+        return False
+    fhv = vals(A.fh)
+    c = Z(A.self.attrs["_cutoff"])
+    return And(len(Xm.prov[1]) == len(mem) and all(a is e.result for a, e in zip(Xm.prov[1], mem)),
+               equiv(r.values, g["out"]), Eq(r.index.len, fhv.len),
+               ForAll(lambda i: Eq(r.index.fn(i), ops.simp(c + Z(fhv.fn(i)))), 0, fhv.len, "i"))
+
+
+contract(f"{STK}::StackingForecaster._predict", "C09,C12", cases=["m1", "m2", "m3"], inputs=_stk_pred_inputs,
+         ensures=[("meta-regressor-combines-the-members-forecasts-in-member-order", _stk_pred_post, {"modular": False})],
+         frame=lambda A: [A.self])
